@@ -1,0 +1,14 @@
+//go:build verif && amd64 && go1.17 && !go1.27
+// +build verif,amd64,go1.17,!go1.27
+
+package unquote
+
+import (
+	"github.com/bytedance/sonic/internal/native/types"
+)
+
+// VerifIntoBytes exposes intoBytesUnsafe with a caller-chosen `replace` switch to the verification
+// harness (the public entry points always pass replace=true). cap(*m) must be >= len(s).
+func VerifIntoBytes(s string, m *[]byte, replace bool) types.ParsingError {
+	return intoBytesUnsafe(s, m, replace)
+}
